@@ -1,17 +1,19 @@
 """Concretisation: abstract token labels -> spellings (DESIGN 4.1).  Pools are
 verified against the working tree before use: a spelling that does not lex to
-its intended splitter kind is dropped and reported (never an alarm)."""
+its intended splitter kind is reported as drift (never an alarm by itself) and KEPT."""
 import random
 
 from .core import REPO  # noqa
 from .project import splitter_kind
 
 POOLS = {
-    'name': ['foo', 'bar', 't1', 'x', 'col_a', '"q n"', '`b`', 'é1', '_v', 'a$b', '"se;mi"', '"BEGIN"'],
+    'name': ['foo', 'bar', 't1', 'x', 'col_a', '"q n"', '`b`', 'é1', '_v', 'a$b', '"se;mi"', '"BEGIN"',
+             # qualified names whose last part is a delimiter word (a name behind a period is a Name whatever it spells)
+             'new.end', 'x.begin', 'r.if', 'q.loop', 's.for', 'o.declare'],
     'num': ['1', '42', '3.5', '0x1F', '1e5'],
     'str': ["'s'", "'it''s; x'", "';'", "'END'", "'/* '", "'--'", "$$ ; $$", "$t$ begin; $t$"],
-    'kw': ['from', 'where', 'and', 'set', 'into', 'values', 'table', 'on', 'or', 'not', 'FROM', 'Where', 'null', 'like'],
-    'dml': ['select', 'insert', 'update', 'delete', 'SELECT', 'Insert'],
+    'kw': ['from', 'where', 'and', 'set', 'into', 'values', 'table', 'on', 'or', 'not', 'FROM', 'Where', 'null'],
+    'dml': ['select', 'insert', 'update', 'delete', 'SELECT', 'Insert', 'drop', 'alter', 'truncate', 'DROP', 'merge', 'commit'],
     'when': ['when', 'WHEN'], 'then': ['then', 'THEN'], 'else': ['else', 'ELSE', 'elsif'],
     'loop': ['loop', 'LOOP'], 'do': ['do', 'DO'], 'in': ['in', 'IN'],
     'function': ['function', 'procedure', 'trigger', 'FUNCTION'], 'returns': ['returns', 'RETURNS'],
@@ -61,10 +63,14 @@ def checked_pools():
             want = LABEL_KIND[lab]
             if lab in ('ws', 'nl'):
                 ok.append(s)
-            elif sig == [want]:
+            elif sig == [want] or (lab == 'name' and sig and set(sig) == {want}):
                 ok.append(s)
             else:
+                # every spelling of the committed pools has its intended kind on the tree they were written for.  One that
+                # has not on THIS tree is kept (the script is judged through its semicolons, see splitfam.tok_trace) and
+                # reported as drift: dropping it would hide exactly the inputs a changed lexer treats differently.
                 bad.append((lab, s, sig))
+                ok.append(s)
         _checked[lab] = ok
     _checked['__bad__'] = bad
     return _checked
@@ -86,6 +92,8 @@ def spell(hist, rng, canonical=False):
                 parts.append(' ')
             elif lab == 'semi' and prev['lab'] in ('num',):
                 pass
+        if s.startswith('#') and parts and (parts[-1][-1:].isalnum() or parts[-1][-1:] in '_$#'):
+            parts.append(' ')        # `word# c` is a NAME (word characters include # and $): a hash comment needs a gap
         parts.append(s)
         prev = {'lab': lab, 'gap': gapish and (lab != 'cmtm' or True)}
     return ''.join(parts)
